@@ -218,7 +218,14 @@ class SubQueryLineageHolder(ColumnLineageMixin):
             str(table): table for table in table_group if isinstance(table, Table)
         }
         # alias comes last: an alias shadows a table name, i.e. in "FROM a b JOIN s.b y", b refers to table a
-        return unqualified_map | qualified_map | alias_map
+        mapping = unqualified_map | qualified_map | alias_map
+        # keep the datasets in the order of table_group (the order in FROM), that is the order SELECT * expands in
+        position = {
+            dataset: idx for idx, dataset in reversed(list(enumerate(table_group)))
+        }
+        return dict(
+            sorted(mapping.items(), key=lambda kv: position.get(kv[1], len(position)))
+        )
 
     def _get_target_table(self) -> Optional[Union[SubQuery, Table]]:
         table = None
